@@ -5,7 +5,7 @@
       member := mf <fn> | ms <fn> | mc <fn> | mp <exposeProp> <ofn> <ofn> <ofn> | ma <val>
       fn     := f <name> <fid> <expose> <oneway>          ofn := <fn> | x
       val    := vd | vi <exposed> <hasCall> <callId> <initId> | vc <exposed> <hasCall> <callId> <initId> | vf <fn>
-    optionally followed by a history   E <n> { is <key> <val> | id <key> | ts <class#> <key> <member> | td <class#> <key> | q ... }
+    optionally followed by a history   E <n> { is <key> <val> | id <key> | ts <class#> <key> <member> | td <class#> <key> | rm | gm | q ... }
     (each step answers "step" / "steperr:<err>", each request as below; the metadata is that of the initial shape)
       key / name inside fn := comma separated code points ("-" = empty)
       request name := s<code points> | h | u
@@ -119,8 +119,12 @@ inductive Ev
   | setMember (ci : Nat) (k : Name) (m : MemberDecl)
   | delMember (ci : Nat) (k : Name)
   | req (r : Req)
+  | resetMeta
+  | getMeta
 
 def pEv : P Ev
+  | "rm" :: r => some (.resetMeta, r)
+  | "gm" :: r => some (.getMeta, r)
   | "is" :: r => do
     let (k, r) ← pName r
     let (v, r) ← pVal r
@@ -181,17 +185,24 @@ def reqPart (sh : Shape) (q : Req) : String :=
   let (rep, eff) := dispatch cfg sh q
   replyTok rep ++ " " ++ natListToString eff
 
-/-- the history after the first block: same recursion as `Pyro.Expose.runHistory`, printing one part per event -/
-def runEvents : Shape → List Ev → List String
-  | _, [] => []
-  | sh, .req q :: rest => reqPart sh q :: runEvents sh rest
-  | sh, .setInst k v :: rest => "step" :: runEvents (applyStep sh (.setInst k v)) rest
-  | sh, .delInst k :: rest => "step" :: runEvents (applyStep sh (.delInst k)) rest
-  | sh, .delMember ci k :: rest => "step" :: runEvents (applyStep sh (.delMember ci k)) rest
-  | sh, .setMember ci k md :: rest =>
+def metaTok (md : Meta) : String :=
+  s!"M {namesTok md.methods} O {namesTok md.oneway} A {namesTok md.attrs}"
+
+/-- the history after the first block: same recursion as `Pyro.Expose.runHistory` / `advertised`, one part per event;
+    `c` = the cached member list (filled by the initial advertisement) -/
+def runEvents : Option Meta → Shape → List Ev → List String
+  | _, _, [] => []
+  | c, sh, .req q :: rest => reqPart sh q :: runEvents c sh rest
+  | c, sh, .setInst k v :: rest => "step" :: runEvents c (applyStep sh (.setInst k v)) rest
+  | c, sh, .delInst k :: rest => "step" :: runEvents c (applyStep sh (.delInst k)) rest
+  | c, sh, .delMember ci k :: rest => "step" :: runEvents c (applyStep sh (.delMember ci k)) rest
+  | c, sh, .setMember ci k md :: rest =>
     match buildMember md with
-    | .ok m => "step" :: runEvents (applyStep sh (.setMember ci k m)) rest
-    | .error e => ("steperr:" ++ errTok e) :: runEvents sh rest
+    | .ok m => "step" :: runEvents c (applyStep sh (.setMember ci k m)) rest
+    | .error e => ("steperr:" ++ errTok e) :: runEvents c sh rest
+  | _, sh, .resetMeta :: rest => "reset" :: runEvents none sh rest
+  | some m, sh, .getMeta :: rest => metaTok m :: runEvents (some m) sh rest
+  | none, sh, .getMeta :: rest => metaTok (metadata sh) :: runEvents (some (metadata sh)) sh rest
 
 def step (toks : List String) : String :=
   match pLine toks with
@@ -201,7 +212,7 @@ def step (toks : List String) : String :=
     | .error e => "builderr:" ++ errTok e
     | .ok sh =>
       let md := metadata sh      -- computed (and cached by the code) before any run-time change
-      let head := s!"ok M {namesTok md.methods} O {namesTok md.oneway} A {namesTok md.attrs}"
-      " | ".intercalate (head :: (qs.map (reqPart sh) ++ runEvents sh evs))
+      let head := "ok " ++ metaTok md
+      " | ".intercalate (head :: (qs.map (reqPart sh) ++ runEvents (some md) sh evs))
 
 def main : IO Unit := runDriver step
